@@ -21,7 +21,8 @@ def _run_job(args):
             out.update(paths=r.paths, obligations=r.obligations, discharged=r.discharged,
                        failed=[{"desc": d, "model": m, "trace": tr} for d, m, tr in r.failed],
                        unknown=r.unknown, unsupported=r.unsupported, unwind=r.unwind_exceeded,
-                       queries=r.queries, solver_s=round(r.solver_time, 2), samples=r.samples[:4], reached=sorted(r.reached))
+                       queries=r.queries, solver_s=round(r.solver_time, 2), samples=r.samples[:4], reached=sorted(r.reached),
+                       extra=getattr(r, "extra", {}))
         elif isinstance(r, dict):
             out.update(r)
     except Exception as e:
@@ -145,5 +146,6 @@ class Report:
         print("%s %s: jobs=%d paths=%d obligations=%d discharged=%d queries=%d solver=%.1fs wall=%.1fs" %
               (self.prop, self.tier, len(self.jobs), paths, obligations, discharged, queries, solver_s, time.time() - self.t0))
         if self.violations: return 1
-        if self.inconclusive or self.spurious or discharged != obligations: return 2
+        if self.inconclusive or self.spurious: return 2
+        if discharged != obligations and not self.known_hits: return 2     # failed obligations are accounted for by listed findings only
         return 0
